@@ -146,6 +146,7 @@ func init() {
 			k.PInhibit, k.PIntervals = 0.15, 0.1
 			k.FaultModes = []string{"slow", "slow", "5xx", "hang", "reset"}
 			k.PFaults, k.MaxFaults = 0.7, 4
+			k.PReloadAfterResolve = 0.3
 			k.PHolds = 0.35
 			k.GWMax = 15 * time.Second
 			k.GIMax = 90 * time.Second
@@ -211,6 +212,7 @@ func init() {
 			k.FaultModes = []string{"5xx", "5xx", "4xx", "4xx", "hang", "reset", "slow"}
 			k.MaxAlertsOpt = true
 			k.PHolds = 0.1
+			k.PWebhookTimeout = 0.35
 			k.PInhibit, k.PIntervals = 0.15, 0.05
 			k.MinSets = 3
 			p := genSingle(seed, "C20", k)
